@@ -1,3 +1,4 @@
+#include "oracle/exact_lp.hh"
 // Operation tables for the "simple" semantic domains (polyhedra, BD shapes,
 // octagons, boxes, grids): the common interface of doc/definitions.dox.
 #ifndef OBJ_OPS_HH
@@ -23,6 +24,35 @@ inline PPL::Relation_Symbol relsym(long v) {
 template <class R> inline std::string rel_str(const R& r) { FaultPause fp; std::ostringstream o; r.ascii_dump(o); return o.str(); }
 
 const dimension_type MAXDIM = 6;
+
+// Independent oracle for the optimisation queries of the closed, constraint-based domains (C polyhedra, BD shapes,
+// octagons, closed boxes): an exact rational simplex (oracle/exact_lp.hh, ~120 lines, self-tested) on the constraints
+// of a private copy.  Returns false when the oracle does not apply (strict inequalities, grids, containers).
+template <class D> inline bool lp_oracle_check(const D& x, const Linear_Expression& le, bool maximize, bool answered, const mpq_class& q, bool attained, std::string& why) {
+  D cpy(x);
+  Constraint_System cs = cpy.constraints();
+  dimension_type n = cpy.space_dimension();
+  std::vector<oracle::LPRow> rows;
+  for (Constraint_System::const_iterator i = cs.begin(); i != cs.end(); ++i) {
+    if (i->is_strict_inequality()) return false;
+    oracle::LPRow r; r.a.assign(n, 0);
+    for (dimension_type j = 0; j < n && j < i->space_dimension(); ++j) r.a[j] = mpq_class(i->coefficient(Variable(j)));
+    r.b = -mpq_class(i->inhomogeneous_term()); r.rel = i->is_equality() ? 0 : 1;
+    rows.push_back(r);
+  }
+  std::vector<mpq_class> c(n, 0);
+  for (dimension_type j = 0; j < n && j < le.space_dimension(); ++j) c[j] = mpq_class(le.coefficient(Variable(j)));
+  oracle::LPResult r = oracle::lp_solve(n, rows, c, maximize);
+  if (r.status != oracle::LP_OPTIMAL) {
+    if (answered) { why = std::string("the library reports the optimum ") + q.get_str() + " but the exact LP on the object's own constraints is " + (r.status == oracle::LP_INFEASIBLE ? "infeasible" : "unbounded"); return true; }
+    return true;
+  }
+  mpq_class want = r.value + mpq_class(le.inhomogeneous_term()); want.canonicalize();
+  if (!answered) { why = "the library reports no optimum (empty or unbounded) but the exact LP on the object's own constraints has the optimum " + want.get_str(); return true; }
+  if (want != q) { why = "the library reports the optimum " + q.get_str() + ", the exact LP on the object's own constraints " + want.get_str(); return true; }
+  if (!attained) { why = "the optimum of a closed set is reported as not attained"; return true; }
+  return true;
+}
 
 template <class D> void add_common_ops(ObjHarness<D>& H) {
   typedef ObjHarness<D> HH;
@@ -337,16 +367,22 @@ template <class D> void add_common_ops(ObjHarness<D>& H) {
   H.add({ "maximize", 1, F_OBS | F_ANS | F_FAULT, 4,
     GENF { gen_expr(r, op, W, false); },
     PREPF { D* x = e.o[0]; Linear_Expression le = c.expr(x->space_dimension());
-            return [x, le]() { Coefficient n, d; bool mx; bool b = x->maximize(le, n, d, mx); FaultPause fp; if (!b) return std::string("F");
+            return [x, le]() { Coefficient n, d; bool mx = false; bool b = x->maximize(le, n, d, mx); FaultPause fp;
+                               if (!b) { if (g_def.active && (K == POLY || K == SHAPE || K == BOX)) { std::string why; try { if (lp_oracle_check(*x, le, true, false, mpq_class(0), false, why) && !why.empty()) def_violation("lp-oracle-maximize", why); } catch (const oracle::OracleError&) {} }
+                                         return std::string("F"); }
                                mpq_class q(n, d); q.canonicalize();
+                               if (g_def.active && (K == POLY || K == SHAPE || K == BOX)) { std::string why; try { if (lp_oracle_check(*x, le, true, true, q, mx, why) && !why.empty()) def_violation("lp-oracle-maximize", why); else if (why.empty()) g_def.ctx->stat("lp_oracle_checks"); } catch (const oracle::OracleError&) {} }
                                if (g_def.active) { Bits px = defbits(*x); auto& v = g_def.probes->of(x->space_dimension());
                                  for (size_t i = 0; i < px.size() && i < v.size(); ++i) if (px[i]) { mpq_class ev = eval_le(le, v[i]); if (ev > q || (ev == q && !mx && K != GRID)) { def_violation("def-maximize", "supremum " + q.get_str() + " but member point " + oracle::show(v[i]) + " evaluates to " + ev.get_str()); break; } } }
                                return "T:" + q.get_str() + ":" + b2s(mx); }; } });
   H.add({ "minimize", 1, F_OBS | F_ANS | F_FAULT, 4,
     GENF { gen_expr(r, op, W, false); },
     PREPF { D* x = e.o[0]; Linear_Expression le = c.expr(x->space_dimension());
-            return [x, le]() { Coefficient n, d; bool mn; bool b = x->minimize(le, n, d, mn); FaultPause fp; if (!b) return std::string("F");
-                               mpq_class q(n, d); q.canonicalize(); return "T:" + q.get_str() + ":" + b2s(mn); }; } });
+            return [x, le]() { Coefficient n, d; bool mn = false; bool b = x->minimize(le, n, d, mn); FaultPause fp;
+                               mpq_class q; if (b) { q = mpq_class(n, d); q.canonicalize(); }
+                               if (g_def.active && (K == POLY || K == SHAPE || K == BOX)) { std::string why; try { if (lp_oracle_check(*x, le, false, b, q, mn, why) && !why.empty()) def_violation("lp-oracle-minimize", why); else if (why.empty()) g_def.ctx->stat("lp_oracle_checks"); } catch (const oracle::OracleError&) {} }
+                               if (!b) return std::string("F");
+                               return "T:" + q.get_str() + ":" + b2s(mn); }; } });
   if constexpr (K != PROD) {
   H.add({ "frequency", 1, F_OBS | F_ANS | F_FAULT, 2,
     GENF { gen_expr(r, op, W, false); },
